@@ -98,6 +98,17 @@ class FnView:
         v._expr_cache = {}
         return v
 
+    def _mut_borrowed(self, local):
+        b = self.b
+        for bi in range(self.n):
+            if b.cleanup[bi]:
+                continue
+            for s in b.stmts(bi):
+                if s.kind == "a" and s.rv.op in ("ref", "ptr") and s.rv.a and s.rv.place.local == local \
+                   and "*" not in s.rv.place.proj:
+                    return True
+        return False
+
     def _mut_partial(self, local):
         # partial writes through a *direct* projection (not through deref) change the local itself
         for (_, _, s) in self.partial.get(local, []):
@@ -319,53 +330,66 @@ class FnView:
 
     # ------------------------------------------------------------- return sites
     def return_sites(self):
-        """classify every definition of _0 (following plain copies):
+        """classify every assignment of the return place _0.  A site is positioned at the block that assigns _0;
+        when _0 is a copy of another local, one site per distinct kind of that local's definitions is produced
+        (still positioned at the block assigning _0).
         list of dict(block, kind, how, line) kind in ok/err/maybe/some/none/true/false/value"""
         out = []
-        self._ret_sites(0, out, set())
-        return out
-
-    def _ret_sites(self, local, out, seen):
-        if local in seen:
-            return
-        seen.add(local)
         live = self.live_blocks()
-        for (bi, idx, obj) in self.defs.get(local, []):
+        for (bi, idx, obj) in self.defs.get(0, []):
             if bi not in live:
                 continue
-            if idx == "T":
-                call = obj
-                nm = call.callee.name if call.callee else "<fnptr>"
-                if "FromResidual" in nm and "from_residual" in nm:
-                    kind = "err"
-                else:
-                    kind = "maybe"
-                out.append({"block": bi, "kind": kind, "how": f"call {nm}", "line": call.line,
-                            "call": call})
+            for (kind, how, line, extra) in self._classify_def(idx, obj, set()):
+                d = {"block": bi, "kind": kind, "how": how, "line": line}
+                d.update(extra)
+                out.append(d)
+        # de-duplicate
+        seen, res = set(), []
+        for d in out:
+            k = (d["block"], d["kind"], d["how"])
+            if k not in seen:
+                seen.add(k)
+                res.append(d)
+        return res
+
+    def _classify_def(self, idx, obj, seen):
+        if idx == "T":
+            call = obj
+            nm = call.callee.name if call.callee else "<fnptr>"
+            if "FromResidual" in nm and "from_residual" in nm:
+                kind = "err"
             else:
-                s = obj
-                rv = s.rv
-                if s.kind != "a":
-                    continue
-                if rv.op == "agg" and isinstance(rv.a, tuple) and rv.a[0] == "adt":
-                    v = rv.a[2]
-                    kind = {"Ok": "ok", "Err": "err", "Some": "some", "None": "none",
-                            "Continue": "ok", "Break": "err"}.get(v, "value")
-                    out.append({"block": bi, "kind": kind, "how": f"{rv.a[1].name}::{v}",
-                                "line": s.line, "stmt": s})
-                elif rv.op == "use" and rv.ops[0].place is not None and rv.ops[0].place.is_local():
-                    self._ret_sites(rv.ops[0].place.local, out, seen)
-                elif rv.op == "use" and rv.ops[0].const is not None:
-                    c = rv.ops[0].const
-                    sv = c["s"]
-                    kind = {"true": "true", "false": "false"}.get(sv, "value")
-                    if "None" in sv and "Option" in self.b.ty(local):
-                        kind = "none"
-                    out.append({"block": bi, "kind": kind, "how": f"const {sv}", "line": s.line,
-                                "stmt": s})
-                else:
-                    out.append({"block": bi, "kind": "value", "how": repr(rv), "line": s.line,
-                                "stmt": s})
+                kind = "maybe"
+            return [(kind, f"call {nm}", call.line, {"call": call})]
+        s = obj
+        if s.kind != "a":
+            return []
+        rv = s.rv
+        if rv.op == "agg" and isinstance(rv.a, tuple) and rv.a[0] == "adt":
+            v = rv.a[2]
+            kind = {"Ok": "ok", "Err": "err", "Some": "some", "None": "none",
+                    "Continue": "ok", "Break": "err"}.get(v, "value")
+            return [(kind, f"{rv.a[1].name}::{v}", s.line, {"stmt": s})]
+        if rv.op == "use" and rv.ops[0].place is not None and rv.ops[0].place.is_local():
+            l = rv.ops[0].place.local
+            if l in seen:
+                return []
+            res = []
+            ds = [d for d in self.defs.get(l, []) if d[0] in self.live_blocks()]
+            if not ds or self._mut_borrowed(l):
+                # written through a `&mut` handed to a closure/callee: value unknown
+                return [("value", repr(rv), s.line, {"stmt": s})]
+            for (bi2, idx2, obj2) in ds:
+                for (k, h, ln, ex) in self._classify_def(idx2, obj2, seen | {l}):
+                    res.append((k, h, s.line, ex if "call" in ex else {"stmt": s, "def_stmt": ex.get("stmt")}))
+            return res
+        if rv.op == "use" and rv.ops[0].const is not None:
+            sv = rv.ops[0].const["s"]
+            kind = {"true": "true", "false": "false"}.get(sv, "value")
+            if "None" in sv and "Option" in self.b.const_ty(rv.ops[0].const):
+                kind = "none"
+            return [(kind, f"const {sv}", s.line, {"stmt": s})]
+        return [("value", repr(rv), s.line, {"stmt": s})]
 
     def success_sites(self):
         """return sites that may deliver a non-error result"""
